@@ -4,11 +4,13 @@ use crate::util::*;
 
 pub mod c01_04;
 pub mod c06;
+pub mod c07;
 pub mod c08;
 pub mod c09;
 pub mod c10;
 pub mod c12;
 pub mod sweep;
+pub mod faults;
 pub mod c16;
 pub mod c19;
 pub mod c20;
@@ -30,6 +32,7 @@ pub fn all() -> Vec<PropDef> {
     PropDef { id: "C03", spaces: c01_04::spaces_c03, assumptions: c01_04::ASSUMPTIONS, budget: (60.0, 3000.0), post: None },
     PropDef { id: "C04", spaces: c01_04::spaces_c04, assumptions: c01_04::ASSUMPTIONS, budget: (60.0, 3000.0), post: None },
     PropDef { id: "C06", spaces: c06::spaces, assumptions: c06::ASSUMPTIONS, budget: (120.0, 3000.0), post: Some(c06::post) },
+    PropDef { id: "C07", spaces: c07::spaces, assumptions: c07::ASSUMPTIONS, budget: (120.0, 3000.0), post: None },
     PropDef { id: "C08", spaces: c08::spaces, assumptions: c08::ASSUMPTIONS, budget: (60.0, 3000.0), post: None },
     PropDef { id: "C09", spaces: c09::spaces, assumptions: c09::ASSUMPTIONS, budget: (60.0, 3000.0), post: None },
     PropDef { id: "C10", spaces: c10::spaces, assumptions: c10::ASSUMPTIONS, budget: (60.0, 3000.0), post: None },
